@@ -263,7 +263,24 @@ def gen_program(rnd, size=None, pseudo=True, data=True, aligns=True, transfers=T
                 body.append(Ln('    addi x0 x0 0', 'instr', 'addi', [('r', 0), ('r', 0), ('i', 0)]))
         elif consts and consts_defined:
             nm, v = rnd.choice(consts_defined)
-            if -2048 <= v <= 2047:
+            if 0 <= v < 32 and rnd.random() < 0.6:
+                # a constant as a shift amount, or as a register alias
+                a = creg(rnd)
+                if rnd.random() < 0.5:
+                    name = rnd.choice(SHI)
+                    body.append(Ln('    %s %s, %s, %s' % (name, reg_txt(rnd, a), reg_txt(rnd, a), nm), 'instr', name,
+                                   [('r', a), ('r', a), ('r', v)]))
+                else:
+                    name, ops = gen_instr(rnd)
+                    if ops and ops[0][0] == 'r':
+                        ops = [('r', v)] + ops[1:]
+                        txt = line_text(rnd, name, ops)
+                        parts = txt.split(None, 2)
+                        # replace the first operand by the constant's name
+                        first = parts[1].rstrip(',')
+                        txt = txt.replace(first, nm, 1)
+                        body.append(Ln(txt, 'instr', name, ops))
+            elif -2048 <= v <= 2047:
                 a, b = creg(rnd), creg(rnd)
                 body.append(Ln('    addi %s, %s, %s' % (reg_txt(rnd, a), reg_txt(rnd, b), nm), 'instr', 'addi',
                                [('r', a), ('r', b), ('i', v)]))
